@@ -110,7 +110,7 @@ def gen_params():
 
     # vmess (C10, C03)
     f = "octo-squirrel/src/protocol/vmess/aead/auth_id.rs"
-    m = find(f, r"\(now - vmess::now\(\)\?\)\.abs\(\)\s*(<=|<)\s*(\d+)", what="vmess auth id time window")
+    m = find(f, r"now\.abs_diff\(vmess::now\(\)\?\)\s*(<=|<)\s*(\d+)", what="vmess auth id time window")
     const("VMESS_AUTHID_WINDOW", int(m.group(2)), f)
     L.append("Definition VMESS_AUTHID_ACCEPT_IS_LE : bool := %s." % ("true" if m.group(1) == "<=" else "false"))
     facts["VMESS_AUTHID_ACCEPT_IS_LE"] = (m.group(1) == "<=")
@@ -134,7 +134,7 @@ def gen_params():
 
     # UDP table parameters (C02/C08)
     f = "octo-squirrel-server/src/server/shadowsocks.rs"
-    m = find(f, r"let ttl = Duration::from_secs\((\d+)\);\s*let mut net_map[^=]*=\s*LruCache::with_expiry_duration_and_capacity\(ttl,\s*(\d+)\)", re.S, what="server assoc table")
+    m = find(f, r"let ttl = Duration::from_secs\((\d+)\);.*?let mut net_map[^=]*=\s*LruCache::with_expiry_duration_and_capacity\(ttl,\s*(\d+)\)", re.S, what="server assoc table")
     const("SERVER_ASSOC_TTL", int(m.group(1)), f)
     const("SERVER_ASSOC_CAPACITY", int(m.group(2)), f)
     f = "octo-squirrel-client/src/client/template.rs"
